@@ -26,6 +26,11 @@ structure LipField [LE α] [Neg α] [Sub α] [Mul α] (n : Nat) (L : α) (f : Li
   len : ∀ y t, y.length = n → (f y t).length = n
   lip : ∀ y z t d, y.length = n → z.length = n → Within d y z → Within (L * d) (f y t) (f z t)
 
+/-- Local variant: the field is `L`-Lipschitz between the states of a set `D` (e.g. a bounded box, for
+fields with products of compartments such as `β·S·I`, which are not globally Lipschitz). -/
+def LipFieldOn [LE α] [Neg α] [Sub α] [Mul α] (D : List α → Prop) (L : α) (f : List α → α → List α) : Prop :=
+  ∀ y z t d, D y → D z → Within d y z → Within (L * d) (f y t) (f z t)
+
 /-- A one-step map `Φ(y, t)` is `ρ`-stable on the set of states `D`: `D` is invariant and a
 perturbation of size `d` of the state is amplified by at most `ρ` (for every time). -/
 structure StableStep [LE α] [Neg α] [Sub α] [Mul α] (D : List α → Prop) (ρ : α)
